@@ -42,6 +42,10 @@ def run(ctx, rep, tier):
     # the internal problem the verdict is about is built from the presolved-or-original data consistently
     from . import c18
     c18.stage_rules(ctx, rep, 'C01.R10')
+    # the verdict is about the user's cone only if equilibration scales non-separable cones uniformly (C10.R4 re-run)
+    from . import c10, c04
+    for cfg in CONFIGS:
+        c10.rectification(c04._Ren(rep, 'C10.R4', 'C01.R12'), ctx.facts(cfg), '' if cfg == 'default' else '[%s]' % cfg)
     from . import primitives
     primitives.vector_primitives(rep, ctx.facts('default'), ctx.eff('default'), '', 'C01.R11')
 
